@@ -81,6 +81,8 @@ def c07_3(ctx):
         pk = parts[-1]
         fmt = pk.args[0].value if isinstance(pk, ast.Call) and norm(pk.func) == "struct.pack" and pk.args and isinstance(pk.args[0], ast.Constant) else None
         got[(prefix, fmt)] = got.get((prefix, fmt), E) | sym.may_set(e.reach, U, E)
+    if not got or any(k[1] is None for k in got):
+        raise Undecided("stream_satoshi_int: the bytes written are not `prefix + struct.pack(<format>, v)` on every path the walker can follow (%s)" % sorted(got, key=repr)[:4])
     want = {("", "<B"): iv(None, 252), ("fd", "<H"): iv(253, 65535), ("fe", "<L"): iv(65536, 0xFFFFFFFF), ("ff", "<Q"): iv(0x100000000, None)}
     for k in sorted(set(got) | set(want), key=repr):
         g, wv = got.get(k), want.get(k)
